@@ -4,10 +4,14 @@ package main
 import (
 	"bytes"
 	"fmt"
+	"io"
 	"os"
+	"strings"
 
 	"github.com/linuxboot/fiano/pkg/uefi"
+	"github.com/linuxboot/fiano/pkg/visitors"
 	. "verifharness/common"
+	"verifharness/nvargen"
 	"verifharness/uefigen"
 	"verifharness/uefiops"
 )
@@ -196,6 +200,238 @@ func strictFV(fv *uefi.FirmwareVolume) string {
 	return ""
 }
 
+// ---- p_modes: the ReadOnly (aliasing) half of C04, which a value model cannot express.
+// Every image is parsed in copy mode and in read-only mode.  Demanded: (a) the caller's buffer is
+// bit-identical after Parse and after every read-only visitor (json, table, validate, count,
+// find, flatten) in either mode; (b) both modes give the same outcome, the same tree (every node,
+// NVAR entries included: type, length and hash of its buffer) and the same JSON rendering;
+// (c) the read-only visitors do not change the tree (Flatten excepted: it detaches children).
+
+func fnv32(b []byte) uint32 {
+	h := uint32(2166136261)
+	for _, x := range b {
+		h ^= uint32(x)
+		h *= 16777619
+	}
+	return h
+}
+
+type deepObs struct{ sb strings.Builder }
+
+func (d *deepObs) Run(f uefi.Firmware) error { return f.Apply(d) }
+func (d *deepObs) Visit(f uefi.Firmware) error {
+	fmt.Fprintf(&d.sb, "%T:%x:%x(", f, len(f.Buf()), fnv32(f.Buf()))
+	err := f.ApplyChildren(d)
+	d.sb.WriteString(")")
+	return err
+}
+
+func deepObserve(root uefi.Firmware) string {
+	d := &deepObs{}
+	_ = d.Run(root)
+	return d.sb.String()
+}
+
+func PModes(args []string) string {
+	img := UnH(args[0])
+	orig := append([]byte{}, img...)
+	defer func() { uefi.ReadOnly = false }()
+	var obs, js [2]string
+	var failed [2]bool
+	for m, ro := range []bool{false, true} {
+		name := map[bool]string{false: "copy", true: "readonly"}[ro]
+		uefiops.Reset()
+		uefi.ReadOnly = ro
+		root, err := uefi.Parse(img)
+		if !bytes.Equal(img, orig) {
+			return "FAIL modes caller-buffer-modified-by-parse mode=" + name + diffAt(img, orig)
+		}
+		if err != nil {
+			failed[m] = true
+			continue
+		}
+		obs[m] = deepObserve(root)
+		var jb bytes.Buffer
+		steps := []struct {
+			n string
+			f func() error
+		}{
+			{"json", func() error { return (&visitors.JSON{W: &jb}).Run(root) }},
+			{"table", func() error { return (&visitors.Table{}).Run(root) }},
+			{"validate", func() error { return (&visitors.Validate{}).Run(root) }},
+			{"count", func() error { return (&visitors.Count{W: io.Discard}).Run(root) }},
+			{"find", func() error {
+				return (&visitors.Find{Predicate: func(f uefi.Firmware) bool { return true }}).Run(root)
+			}},
+			// last: Flatten detaches the children from their parents by design, so the tree
+			// comparison does not apply to it (the caller's buffer still must not change)
+			{"flatten", func() error { return (&visitors.Flatten{W: io.Discard}).Run(root) }},
+		}
+		for _, st := range steps {
+			_ = st.f()
+			if !bytes.Equal(img, orig) {
+				return "FAIL modes caller-buffer-modified-by-" + st.n + " mode=" + name + diffAt(img, orig)
+			}
+			if o := deepObserve(root); st.n != "flatten" && o != obs[m] {
+				return "FAIL modes tree-changed-by-" + st.n + " mode=" + name
+			}
+		}
+		js[m] = jb.String()
+	}
+	if failed[0] != failed[1] {
+		return fmt.Sprintf("FAIL modes outcome-differs copy-error=%v readonly-error=%v", failed[0], failed[1])
+	}
+	if failed[0] {
+		return "ok"
+	}
+	if obs[0] != obs[1] {
+		return "FAIL modes readonly-tree-differs" + firstDiff(obs[0], obs[1])
+	}
+	if js[0] != js[1] {
+		return "FAIL modes readonly-json-differs" + firstDiff(js[0], js[1])
+	}
+	return "ok"
+}
+
+func diffAt(a, b []byte) string {
+	for i := range a {
+		if i >= len(b) || a[i] != b[i] {
+			return fmt.Sprintf(" at=%#x now=%#x was=%#x", i, a[i], b[i])
+		}
+	}
+	return ""
+}
+
+func firstDiff(a, b string) string {
+	i := 0
+	for i < len(a) && i < len(b) && a[i] == b[i] {
+		i++
+	}
+	lo := i - 30
+	if lo < 0 {
+		lo = 0
+	}
+	hi := func(s string) int {
+		if i+30 < len(s) {
+			return i + 30
+		}
+		return len(s)
+	}
+	return fmt.Sprintf(" at=%d copy=%q readonly=%q", i, a[lo:hi(a)], b[lo:hi(b)])
+}
+
+// ---- images for the aliasing clause: sections of every type with odd-length bodies (UI names and
+// version strings whose CHAR16 part has an odd byte count included), each ending right before
+// non-zero bytes (0xFF alignment padding, the next section, the next file header, volume free
+// space), and NVAR stores with names of odd length.
+
+func oddString(r *Rng) []byte {
+	n := r.Pick(0, 1, 2, 5)
+	var b []byte
+	for i := 0; i < n; i++ {
+		b = append(b, byte('A'+r.Intn(26)), 0)
+	}
+	switch r.Intn(3) {
+	case 0: // truncated last code unit
+		b = append(b, byte('a'+r.Intn(26)))
+	case 1: // terminator, then one stray byte
+		b = append(b, 0, 0, byte(1+r.Intn(255)))
+	default:
+		b = append(b, 0xFF)
+	}
+	return b
+}
+
+func secStream(r *Rng) []byte {
+	var out []byte
+	n := r.Range(1, 5)
+	for i := 0; i < n; i++ {
+		for len(out)%4 != 0 {
+			out = append(out, byte(r.Pick(0xFF, 0xFF, 0x5A, 0x01)))
+		}
+		var typ byte
+		var body []byte
+		switch r.Intn(8) {
+		case 0, 1:
+			typ, body = 0x15, oddString(r)
+		case 2, 3:
+			typ, body = 0x14, append([]byte{byte(r.Intn(256)), byte(r.Intn(256))}, oddString(r)...)
+		case 4:
+			typ, body = byte(r.Pick(0x13, 0x1b, 0x1c)), append([]byte{0x06}, r.Bytes(r.Pick(0, 2, 4))...)
+		case 5:
+			typ = 0x02
+			g := uefigen.GenGUID(r)
+			body = append(g[:], 24, 0, byte(r.Pick(0, 2)), 0)
+			body = append(body, r.Bytes(r.Pick(1, 3, 7))...)
+		case 6:
+			typ, body = byte(r.Pick(0x1a, 0x40, 0xff)), r.Bytes(r.Pick(1, 3, 5, 9))
+		default:
+			typ, body = byte(r.Pick(0x10, 0x11, 0x12, 0x19, 0x18, 0x01, 0x03, 0x16)), r.Bytes(r.Pick(1, 3, 5, 17, 21))
+		}
+		sz := 4 + len(body)
+		out = append(out, byte(sz), byte(sz>>8), byte(sz>>16), typ)
+		out = append(out, body...)
+	}
+	return out
+}
+
+// an NVAR store whose entries carry names of odd length (UCS-2 without terminator and an odd
+// byte count, ASCII of odd length), hand-built; plus a store of the shared grammar
+func oddNvarStore(r *Rng) []byte {
+	var out []byte
+	n := r.Range(1, 3)
+	for i := 0; i < n; i++ {
+		attrs := byte(0x84) // valid, inline GUID, UCS-2 name
+		var name []byte
+		switch r.Intn(3) {
+		case 0:
+			name = oddString(r)
+		case 1:
+			name = append(oddString(r), 0, 0)
+		default:
+			attrs |= 0x02
+			name = append([]byte("Odd"[:r.Range(1, 3)]), 0)
+		}
+		data := r.Bytes(r.Pick(0, 1, 4))
+		sz := 10 + 16 + len(name) + len(data)
+		e := []byte{'N', 'V', 'A', 'R', byte(sz), byte(sz >> 8), 0xFF, 0xFF, 0xFF, attrs}
+		g := uefigen.GenGUID(r)
+		e = append(e, g[:]...)
+		e = append(e, name...)
+		e = append(e, data...)
+		out = append(out, e...)
+	}
+	for i, k := 0, r.Pick(0, 3, 16); i < k; i++ {
+		out = append(out, 0xFF)
+	}
+	return out
+}
+
+func genAliasImage(r *Rng) []byte {
+	v := &uefigen.Vol{FSGUID: uefigen.FFS2, Attrs: 0x4FEFF, Revision: 2, BlockSize: 64, FreeSpace: r.Pick(0, 1, 8, 100)}
+	nf := r.Range(1, 4)
+	for i := 0; i < nf; i++ {
+		f := &uefigen.File{GUID: uefigen.GenGUID(r), Type: byte(r.Pick(2, 4, 7, 9)), State: 0xF8, Body: secStream(r)}
+		v.Files = append(v.Files, f)
+	}
+	if r.Chance(1, 2) {
+		body := oddNvarStore(r)
+		if r.Chance(1, 3) {
+			body = nvargen.Gen(r, 0xFF, r.Pick(0, 1)).Bytes()
+		}
+		f := &uefigen.File{Type: 1, State: 0xF8, Body: body}
+		copy(f.GUID[:], uefi.NVAR[:])
+		k := r.Intn(len(v.Files) + 1)
+		v.Files = append(v.Files[:k], append([]*uefigen.File{f}, v.Files[k:]...)...)
+	}
+	reg := &uefigen.Region{Elems: []uefigen.Elem{{Vol: v}}}
+	if r.Chance(1, 3) {
+		reg.Elems = append(reg.Elems, uefigen.Elem{Pad: bytes.Repeat([]byte{0xFF}, 8*r.Range(1, 6))})
+	}
+	img, _ := uefigen.EmitRegion(reg)
+	return img
+}
+
 func PPartitionStrict(args []string) string {
 	img := UnH(args[0])
 	uefiops.Reset()
@@ -250,9 +486,21 @@ func gen(r *Rng, tier string, emit Emit) {
 	for _, b := range uefigen.HistoricalCorpus(repo, maxCorpus) {
 		emit("P", "p_partition", H(b))
 		emit("P", "p_partition_strict", H(b))
+		emit("P", "p_modes", H(b))
 		if len(b) <= 6000 && len(b) > 0 {
 			emit("C", "parse", H(b))
 		}
+	}
+	// aliasing shapes: odd-length strings and bodies right before non-zero bytes, NVAR odd names
+	for it := 0; it < n; it++ {
+		img := genAliasImage(r.Fork(uint64(500000 + it)))
+		if len(img) == 0 || len(img) > 12000 {
+			continue
+		}
+		emit("P", "p_modes", H(img))
+		emit("P", "p_partition", H(img))
+		emit("P", "p_partition_strict", H(img))
+		emit("C", "parse", H(img))
 	}
 	for it := 0; it < n; it++ {
 		rr := r.Fork(uint64(it))
@@ -264,6 +512,7 @@ func gen(r *Rng, tier string, emit Emit) {
 		}
 		emit("P", "p_partition", H(img))
 		emit("P", "p_partition_strict", H(img))
+		emit("P", "p_modes", H(img))
 		emit("C", "parse", H(img))
 		// structure-aware mutants: most still parse
 		for k := 0; k < 12 && len(fields) > 0; k++ {
@@ -272,6 +521,7 @@ func gen(r *Rng, tier string, emit Emit) {
 			m := uefigen.Mutate(img, f, vs[rr.Intn(len(vs))])
 			emit("P", "p_partition", H(m))
 			emit("P", "p_partition_strict", H(m))
+			emit("P", "p_modes", H(m))
 			emit("C", "parse", H(m))
 		}
 	}
@@ -280,5 +530,6 @@ func gen(r *Rng, tier string, emit Emit) {
 func main() {
 	uefiops.RegisterAll()
 	Register("p_partition_strict", PPartitionStrict)
+	Register("p_modes", PModes)
 	Main(gen)
 }
